@@ -23,6 +23,8 @@ use crate::{
 pub const VALUES: &[&str] = &[
     "", "0", "1", "-1", "255", "256", "4294967296", "18446744073709551615", "18446744073709551616", "1e19", "1e20", "1e400", "nan", "inf", "-0", "0.0005", "1:2", ":", "a=b", "=", "x", "oneshot", "play",
     "2020-06-12T17:53:00Z", "2020-13-45T99:99:99Z", "\u{e9}", "1.5-3.5", "1.5-", "-", "1e19-1e19",
+    // long / odd decimal spellings
+    "12.3450000000", "3.00000000001", "0.0000000001", "1.000000000000000000001", "1.", ".5", "1e-9", "4294967295.999999999", "0x10", "1_000", " 1", "1 ", "+1", "1.5e3", "00000000000000000000001",
 ];
 pub const SMALL_VALUES: &[&str] = &["", "0", "1", "18446744073709551616", "x", "1:2", "a=b", "1.5-"];
 
@@ -431,7 +433,7 @@ fn enumerate_decoder(d: &Decoder, tier: Tier) -> Acc {
         if acc.ok == before && acc.viol.is_empty() {
             machinery_error(&format!("C12: the valid base reply for `{}` does not convert", d.name));
         }
-        let edits = |b: &Vec<(String, String)>, vals: &[&str]| -> Vec<Vec<(String, String)>> {
+        let edits = |b: &Vec<(String, String)>, vals: &[&str], every_pos: bool| -> Vec<Vec<(String, String)>> {
             let mut out = Vec::new();
             for i in 0..b.len() {
                 let mut x = b.clone();
@@ -451,7 +453,8 @@ fn enumerate_decoder(d: &Decoder, tier: Tier) -> Acc {
             }
             for k in &d.keys {
                 for v in vals {
-                    for pos in [0, b.len() / 2, b.len()] {
+                    let positions: Vec<usize> = if every_pos { (0..=b.len()).collect() } else { vec![0, b.len() / 2, b.len()] };
+                    for pos in positions {
                         let mut x = b.clone();
                         x.insert(pos, (k.to_string(), v.to_string()));
                         out.push(x);
@@ -460,16 +463,16 @@ fn enumerate_decoder(d: &Decoder, tier: Tier) -> Acc {
             }
             out
         };
-        let firsts = edits(&base, VALUES);
+        let firsts = edits(&base, VALUES, true);
         for e in &firsts {
             convert(d, e, base_bin, &mut acc, false);
             acc.field_lists += 1;
             acc.nontrivial += 1;
         }
         // pairs of edits: second edit over the small value pool
-        let step = tier.pick(if firsts.len() > 1500 { 7 } else { 2 }, 1);
+        let step = tier.pick(if firsts.len() > 1500 { 23 } else { 5 }, 1);
         for e in firsts.iter().step_by(step) {
-            for e2 in edits(e, tier.pick(&SMALL_VALUES[..4], SMALL_VALUES)).iter().step_by(tier.pick(3, 1)) {
+            for e2 in edits(e, tier.pick(&SMALL_VALUES[..4], SMALL_VALUES), false).iter().step_by(tier.pick(3, 1)) {
                 convert(d, e2, base_bin, &mut acc, false);
                 acc.field_lists += 1;
                 acc.nontrivial += 1;
@@ -592,7 +595,7 @@ pub fn run(tier: Tier) -> i32 {
     cov.evaluations = acc.conversions;
     cov.distinct_nontrivial = acc.nontrivial;
     cov.rule = format!(
-        "per typed decoder ({} decoders): every field list of length <= 2 over (keys the decoder mentions + unrelated / tag / case-variant keys) x {} boundary value spellings, with and without binary where relevant (thorough: length 3 over a reduced pool); a valid base reply with every single edit (delete, replace value by each pool value, swap neighbours, insert each (key, value) at front/middle/back) and pairs of edits; typed Vec lists of 0..=5 and tuples of arity 1..=8 with every frame count 0..=N+1; field names of length <= 3 over 9 byte classes through the parser into the tag-keyed decoders; non-trivial = edited valid replies and mismatching frame counts",
+        "per typed decoder ({} decoders): every field list of length <= 2 over (keys the decoder mentions + unrelated / tag / case-variant keys) x {} boundary value spellings, with and without binary where relevant (thorough: length 3 over a reduced pool); a valid base reply with every single edit (delete, replace value by each pool value, swap neighbours, insert each (key, value) at every position) and pairs of edits; typed Vec lists of 0..=5 and tuples of arity 1..=8 with every frame count 0..=N+1; field names of length <= 3 over 9 byte classes through the parser into the tag-keyed decoders; non-trivial = edited valid replies and mismatching frame counts",
         decoders().len(),
         VALUES.len()
     );
